@@ -228,4 +228,21 @@ def run(repo: Repo, rep: Report, tier: str) -> None:
                       "reset -> lower_expr -> read on every path" if ok7 else
                       ("no lowering call dominates the read" if not mine else "the channel is not reset before the call: `Entity a = f(); Signal s = g();` style sequences bind a stale entity "
                        "whenever the second callee returns none"), f7.loc(r))
+            # ... and what the call returned is bound: inside the `is not None` branch the store into entity_refs carries no further condition (the analyzer's
+            # symbol table knows top-level names only at this stage, so a test on it silently drops the entity for every local)
+            binds = [x for x in ast.walk(r) if isinstance(x, ast.Assign) and isinstance(x.targets[0], ast.Subscript) and norm(x.targets[0].value) == "self.parent.entity_refs"
+                     and "returned_entity_id" in norm(x.value)]
+            extra = []
+            for b_ in binds:
+                chain_ = [g for g, pol in cguards(f7, b_)]
+                own_ = [g for g, pol in cguards(f7, r)] + [canon(f7).text(r.test)]
+                extra += [g for g in chain_ if g not in own_ and "returned_entity_id" not in g]
+            okb = bool(binds) and not extra
+            rep.check(okb, "C12-R7", f"{f7.short}: the returned entity (read #{reads7.index(r) + 1}) is bound to the declared/assigned name whenever there is one",
+                      "unconditional store into entity_refs" if okb else ("no store into entity_refs" if not binds else
+                      f"the store is additionally conditioned on `{extra[0][:90]}`: for a name the test does not know (a local of a function or loop body) the entity is dropped and later property writes hit the previous entity"), f7.loc(binds[0] if binds else r))
     rep.floor("C12-R7", "reads of the returned-entity channel", n7, 2)
+
+    # ---------------- R8 ---------------------------------------------------------------
+    from .shared import borrow as _borrow12b
+    _borrow12b(repo, rep, "C15", "C15-R12", "C12-R8", "a call made by one computation leaves nothing behind for the next: the parameters bound for the call are unbound after it", floor=1)
